@@ -1782,6 +1782,16 @@ impl Blockchain {
 
         trace!("number of hashes to remove {}", block_hashes_copy.len());
 
+        // the longest-chain block of this height is removed last. if the process dies
+        // between two of these removals, the files that are left still begin with a
+        // block the rest of the chain builds on (a restart loads the lowest id first)
+        block_hashes_copy.sort_by_key(|hash| {
+            self.blocks
+                .get(hash)
+                .map(|block| block.in_longest_chain)
+                .unwrap_or(false)
+        });
+
         let mut wallet_update_status = WALLET_NOT_UPDATED;
         for hash in block_hashes_copy {
             let status = self.delete_block(delete_block_id, hash, storage).await;
